@@ -633,4 +633,48 @@ theorem writes_append (A B : List Op) : writes (A ++ B) = writes A + writes B :=
   | nil => simp [writes]
   | cons a as ih => cases a <;> simp [writes, ih] <;> omega
 
+theorem writes_flatMap {α : Type} (l : List α) (f : α → List Op) :
+    writes (l.flatMap f) = (l.map (fun x => writes (f x))).sum := by
+  induction l with
+  | nil => simp [writes]
+  | cons x xs ih => simp [List.flatMap_cons, writes_append, ih]
+
+theorem writes_flatStmt (procs : List (String × List Act)) (i : Nat) (st : Stmt) :
+    writes (flatStmt procs i st) = writes (flatStmt procs 0 st) := by
+  cases st with
+  | call p needs =>
+    simp only [flatStmt, writes_append]
+    congr 1
+    induction needs with
+    | nil => rfl
+    | cons l ls ih => simpa [writes] using ih
+  | _ => rfl
+
+theorem sum_const (n w : Nat) : ((List.range n).map (fun _ => w)).sum = n * w := by
+  induction n with
+  | zero => simp
+  | succ n ih => simp [List.range_succ, ih, Nat.succ_mul]
+
+def itemWrites (procs : List (String × List Act)) (c : Counts) : MainItem → Nat
+  | .stmt s => writes (flatStmt procs 0 s)
+  | .loop b body => (b.eval c).toNat * writes (body.flatMap (flatStmt procs 0))
+
+theorem writes_flatItem (procs : List (String × List Act)) (c : Counts) (it : MainItem) :
+    writes (flatItem procs c it) = itemWrites procs c it := by
+  cases it with
+  | stmt s => rfl
+  | loop b body =>
+    simp only [flatItem, itemWrites, writes_flatMap, writes_flatStmt procs _ _]
+    exact sum_const _ _
+
+theorem foldl_add (l : List Nat) : ∀ a, l.foldl (· + ·) a = a + l.sum := by
+  induction l with
+  | nil => simp
+  | cons x xs ih => intro a; simp [List.foldl_cons, ih, Nat.add_assoc]
+
+/-- (a left fold: the closed form is then a definitional unfolding, whatever the number of statements without writes) -/
+theorem writes_flatItems (procs : List (String × List Act)) (c : Counts) (items : List MainItem) :
+    writes (flatItems procs c items) = (items.map (itemWrites procs c)).foldl (· + ·) 0 := by
+  simp only [flatItems, writes_flatMap, writes_flatItem, foldl_add, Nat.zero_add]
+
 end Stgutg.Proofs.FailStop
